@@ -1,4 +1,5 @@
 import Gca.Props.C05
+import Gca.Props.C01
 import Gca.Tie.Tables
 /-
 C14 - Archive download is a consistent, public-only snapshot.
@@ -21,32 +22,433 @@ namespace Gca.Srv
 def Reach (cfg : Cfg) (V : Verify) (sgn : Bytes → Bytes) (s t : State) : Prop :=
   ∃ ops, (∀ op ∈ ops, OpWF op) ∧ (run cfg V sgn s ops).1 = t
 
+/-! ### Helper lemmas: what one operation does to the files -/
+
+/-- The three logs of `d'` extend those of `d` by appending. -/
+def c14h_Grow (d d' : Disk) : Prop :=
+  (∃ x, d'.auths = d.auths ++ x) ∧ (∃ x, d'.reports = d.reports ++ x) ∧ (∃ x, d'.weeks = d.weeks ++ x)
+
+theorem c14h_Grow.refl (d : Disk) : c14h_Grow d d := ⟨⟨[], by simp⟩, ⟨[], by simp⟩, ⟨[], by simp⟩⟩
+
+theorem c14h_Grow.trans {a b c : Disk} (h1 : c14h_Grow a b) (h2 : c14h_Grow b c) : c14h_Grow a c := by
+  obtain ⟨⟨x1, e1⟩, ⟨y1, f1⟩, ⟨z1, g1⟩⟩ := h1
+  obtain ⟨⟨x2, e2⟩, ⟨y2, f2⟩, ⟨z2, g2⟩⟩ := h2
+  exact ⟨⟨x1 ++ x2, by rw [e2, e1, List.append_assoc]⟩, ⟨y1 ++ y2, by rw [f2, f1, List.append_assoc]⟩,
+    ⟨z1 ++ z2, by rw [g2, g1, List.append_assoc]⟩⟩
+
+/-- One operation on the files: logs grow by appending, a registered GCA key file is
+left alone, and every report in the new report file is an old one or is signed by
+the device that was live under its id. -/
+structure c14h_StepOk (V : Verify) (s s' : State) : Prop where
+  grow  : c14h_Grow s.disk s'.disk
+  key   : s.gcaAvail = true → s'.disk.gcaKey = s.disk.gcaKey
+  newOk : ∀ r ∈ s'.disk.reports, r ∈ s.disk.reports ∨
+            ∃ d, s.devices.get r.id = some d ∧ V d.auth.key (Report.signingBytes r) r.sig = true
+
+theorem c14h_ok_of_disk (V : Verify) (s s' : State) (h : s'.disk = s.disk) : c14h_StepOk V s s' := by
+  refine ⟨?_, fun _ => by rw [h], fun r hr => Or.inl (by rw [h] at hr; exact hr)⟩
+  rw [h]; exact c14h_Grow.refl _
+
+theorem c14h_ok_refl (V : Verify) (s : State) : c14h_StepOk V s s := c14h_ok_of_disk V s s rfl
+
+/-- Same report file and key file; authorizations and weeks appended. -/
+theorem c14h_ok_of_lists (V : Verify) (s s' : State) (ha : ∃ x, s'.disk.auths = s.disk.auths ++ x)
+    (hr : s'.disk.reports = s.disk.reports) (hw : ∃ x, s'.disk.weeks = s.disk.weeks ++ x)
+    (hk : s'.disk.gcaKey = s.disk.gcaKey) : c14h_StepOk V s s' :=
+  ⟨⟨ha, ⟨[], by rw [hr]; simp⟩, hw⟩, fun _ => hk, fun r h => Or.inl (by rw [hr] at h; exact h)⟩
+
+theorem c14h_dgram (cfg : Cfg) (V : Verify) (s : State) (now : Nat) (b : Bytes) (h : Inv s) :
+    c14h_StepOk V s (dgram cfg V s now b).1 := by
+  unfold dgram
+  split
+  · exact c14h_ok_refl V s
+  split
+  · exact c14h_ok_refl V s
+  rename_i r hpr
+  split
+  · exact c14h_ok_refl V s
+  split
+  · exact c14h_ok_refl V s
+  obtain ⟨_, dv, hdv, hv⟩ := c01h_parseReport_some hpr
+  obtain ⟨s1, d1, rec, hint, hf1, _, _, hdisk1, _⟩ :=
+    c04h_integrate_spec cfg s r dv hdv (h.devOk _ _ hdv).2.1
+  rw [hint]
+  show c14h_StepOk V s s1
+  refine ⟨⟨⟨[], by rw [hf1.auths]; simp⟩, ⟨_, hdisk1⟩, ⟨[], by rw [hf1.weeks]; simp⟩⟩, fun _ => hf1.dGca, ?_⟩
+  intro x hx
+  rw [hdisk1] at hx
+  rcases List.mem_append.mp hx with hx | hx
+  · exact Or.inl hx
+  · cases rec with
+    | false => simp at hx
+    | true =>
+      have : x = r := by simpa using hx
+      subst this
+      exact Or.inr ⟨dv, hdv, hv⟩
+
+theorem c14h_register (V : Verify) (s : State) (key sig : Bytes) :
+    c14h_StepOk V s (register V s key sig).1 := by
+  unfold register
+  split
+  · exact c14h_ok_refl V s
+  rename_i hav
+  split
+  · exact c14h_ok_refl V s
+  · exact ⟨c14h_Grow.refl _, fun h => absurd h hav, fun r hr => Or.inl hr⟩
+
+theorem c14h_save (cfg : Cfg) (V : Verify) (s : State) (a : Auth) :
+    c14h_StepOk V s (saveEquipment cfg s a).1 := by
+  rcases c04h_save_cases cfg s a with hres | ⟨cur, _, _, _, hres⟩ | ⟨_, _, _, hres⟩
+  · rw [hres]; exact c14h_ok_refl V s
+  · rw [hres]; exact c14h_ok_of_lists V s _ ⟨[a], rfl⟩ rfl ⟨[], by simp [banDevice]⟩ rfl
+  · rw [hres]; exact c14h_ok_of_lists V s _ ⟨[a], rfl⟩ rfl ⟨[], by simp⟩ rfl
+
+theorem c14h_authorize (cfg : Cfg) (V : Verify) (s : State) (a : Auth) :
+    c14h_StepOk V s (authorize cfg V s a).1 := by
+  unfold authorize
+  split
+  · exact c14h_ok_refl V s
+  split
+  · exact c14h_ok_refl V s
+  · exact c14h_save cfg V s a
+
+/-- Rotation appends one week and leaves the other files alone. -/
+theorem c14h_rotate_disk (sgn : Bytes → Bytes) (s : State) :
+    (rotate sgn s).1.disk.auths = s.disk.auths ∧ (rotate sgn s).1.disk.reports = s.disk.reports ∧
+    (rotate sgn s).1.disk.gcaKey = s.disk.gcaKey ∧ ∃ x, (rotate sgn s).1.disk.weeks = s.disk.weeks ++ x := by
+  unfold rotate
+  split
+  · exact ⟨rfl, rfl, rfl, [], by simp⟩
+  · exact ⟨rfl, rfl, rfl, _, rfl⟩
+
+theorem c14h_rotate (V : Verify) (sgn : Bytes → Bytes) (s : State) : c14h_StepOk V s (rotate sgn s).1 := by
+  obtain ⟨h1, h2, h3, h4⟩ := c14h_rotate_disk sgn s
+  exact c14h_ok_of_lists V s _ ⟨[], by rw [h1]; simp⟩ h2 h4 h3
+
+theorem c14h_catchUp_disk (sgn : Bytes → Bytes) (now fuel : Nat) (s : State) :
+    (catchUp sgn now fuel s).1.disk.auths = s.disk.auths ∧ (catchUp sgn now fuel s).1.disk.reports = s.disk.reports ∧
+    (catchUp sgn now fuel s).1.disk.gcaKey = s.disk.gcaKey ∧
+    ∃ x, (catchUp sgn now fuel s).1.disk.weeks = s.disk.weeks ++ x := by
+  induction fuel generalizing s with
+  | zero => exact ⟨rfl, rfl, rfl, [], by simp [catchUp]⟩
+  | succ n ih =>
+    unfold catchUp
+    split
+    · exact ⟨rfl, rfl, rfl, [], by simp⟩
+    · obtain ⟨h1, h2, h3, x, h4⟩ := c14h_rotate_disk sgn s
+      generalize rotate sgn s = p at h1 h2 h3 h4
+      obtain ⟨s', o⟩ := p
+      simp only at h1 h2 h3 h4
+      obtain ⟨g1, g2, g3, y, g4⟩ := ih s'
+      cases o <;> simp only <;>
+        first
+        | exact ⟨g1.trans h1, g2.trans h2, g3.trans h3, x ++ y, by rw [g4, h4, List.append_assoc]⟩
+        | exact ⟨h1, h2, h3, x, h4⟩
+
+theorem c14h_restart (cfg : Cfg) (V : Verify) (sgn : Bytes → Bytes) (s : State) (fresh : Key) (now : Nat)
+    (h : Sync cfg V s) : c14h_StepOk V s (step cfg V sgn s (.restart fresh now)).1 := by
+  obtain ⟨t, ht, _, _, hl⟩ := c04h_restart_eq cfg V sgn s fresh now h
+  show c14h_StepOk V s (match load cfg V sgn s.disk s.tempKey fresh now with
+      | none => (s, Out.startFailed)
+      | some s' => (s', Out.ok)).1
+  rw [hl]
+  obtain ⟨_, h2, h3, h4, again, hag1, hag2⟩ := c05h_load_again cfg V s t fresh h ht
+  obtain ⟨c1, c2, c3, x, c4⟩ := c14h_catchUp_disk sgn now (now / week + 2) t
+  refine ⟨⟨⟨[], ?_⟩, ⟨again, ?_⟩, ⟨x, ?_⟩⟩, fun _ => ?_, ?_⟩
+  · show (catchUp sgn now (now / week + 2) t).1.disk.auths = _
+    rw [c1, h3]; simp
+  · show (catchUp sgn now (now / week + 2) t).1.disk.reports = _
+    rw [c2, hag1]
+  · show (catchUp sgn now (now / week + 2) t).1.disk.weeks = _
+    rw [c4, h4]
+  · show (catchUp sgn now (now / week + 2) t).1.disk.gcaKey = _
+    rw [c3, h2]
+  · intro r hr
+    have hr' : r ∈ (catchUp sgn now (now / week + 2) t).1.disk.reports := hr
+    rw [c2, hag1] at hr'
+    rcases List.mem_append.mp hr' with hr' | hr'
+    · exact Or.inl hr'
+    · exact Or.inl (hag2 r hr')
+
+/-- Every operation from a state in sync treats the files as `c14h_StepOk` says. -/
+theorem c14h_step (cfg : Cfg) (V : Verify) (sgn : Bytes → Bytes) (s : State) (op : Op)
+    (h : Sync cfg V s) : c14h_StepOk V s (step cfg V sgn s op).1 := by
+  cases op with
+  | dgram now d => exact c14h_dgram cfg V s now d h.inv
+  | register k sig => exact c14h_register V s k sig
+  | authorize a => exact c14h_authorize cfg V s a
+  | rotate => exact c14h_rotate V sgn s
+  | tick now =>
+    show c14h_StepOk V s (tick sgn s now).1
+    unfold tick
+    split
+    · exact c14h_rotate V sgn s
+    · exact c14h_ok_refl V s
+  | restart fresh now => exact c14h_restart cfg V sgn s fresh now h
+  | stats tso => exact c14h_ok_refl V s
+  | sync id => exact c14h_ok_refl V s
+  | authServer a =>
+    show c14h_StepOk V s (authServer V s a).1
+    unfold authServer
+    split
+    · exact c14h_ok_refl V s
+    split
+    · exact c14h_ok_refl V s
+    split
+    · split
+      · exact c14h_ok_refl V s
+      split
+      · exact c14h_ok_refl V s
+      · exact c14h_ok_of_disk V s _ rfl
+    · exact c14h_ok_of_disk V s _ rfl
+  | migrate m =>
+    show c14h_StepOk V s (migrateOrder V s m).1
+    unfold migrateOrder
+    split
+    · exact c14h_ok_refl V s
+    split
+    · exact c14h_ok_refl V s
+    · exact c14h_ok_of_disk V s _ rfl
+  | impact id ts rate =>
+    show c14h_StepOk V s (impactWrite s id ts rate)
+    unfold impactWrite
+    split
+    · exact c14h_ok_refl V s
+    · split
+      · exact c14h_ok_of_disk V s _ rfl
+      · exact c14h_ok_refl V s
+
+/-- A registered GCA stays registered as long as its key file is left alone. -/
+theorem c14h_avail_keeps {s s' : State} (hs : Inv s) (hs' : Inv s') (hav : s.gcaAvail = true)
+    (hk : s'.disk.gcaKey = s.disk.gcaKey) : s'.gcaAvail = true := by
+  obtain ⟨h1, h2⟩ := hs.gcaAv hav
+  cases hav' : s'.gcaAvail with
+  | true => rfl
+  | false =>
+    obtain ⟨_, h3⟩ := hs'.gcaUn hav'
+    rw [hk, h1] at h3
+    rcases h3 with h3 | h3
+    · cases h3
+    · have : s.gcaKey = [] := Option.some.inj h3
+      rw [this] at h2; simp at h2
+
+theorem c14h_run (cfg : Cfg) (V : Verify) (sgn : Bytes → Bytes) (ops : List Op) (s : State)
+    (h : Sync cfg V s) (hops : ∀ op ∈ ops, OpWF op) :
+    c14h_Grow s.disk (run cfg V sgn s ops).1.disk ∧
+    (s.gcaAvail = true → (run cfg V sgn s ops).1.disk.gcaKey = s.disk.gcaKey) := by
+  induction ops generalizing s with
+  | nil => exact ⟨c14h_Grow.refl _, fun _ => rfl⟩
+  | cons op t ih =>
+    have h1 := sync_step cfg V sgn s op h (hops op (by simp))
+    have hst := c14h_step cfg V sgn s op h
+    obtain ⟨g1, g2⟩ := ih (step cfg V sgn s op).1 h1 (fun o ho => hops o (by simp [ho]))
+    refine ⟨hst.grow.trans g1, fun hav => ?_⟩
+    have hk := hst.key hav
+    exact (g2 (c14h_avail_keeps h.inv h1.inv hav hk)).trans hk
+
+/-! ### A live device has its authorization on disk -/
+
+theorem c14h_replayAuth_mem (cfg : Cfg) (L : List Auth) (s : State) (a : Auth) (ha : a ∈ L)
+    (h : ∀ id d, s.devices.get id = some d → d.auth ∈ L) :
+    ∀ id d, (replayAuth cfg s a).devices.get id = some d → d.auth ∈ L := by
+  unfold replayAuth
+  split
+  · exact h
+  · split
+    · split
+      · exact h
+      · intro id d hd
+        simp only [banDevice] at hd
+        by_cases e : a.id = id
+        · subst e; rw [FMap.get_del_same] at hd; cases hd
+        · rw [FMap.get_del_ne _ _ _ e] at hd; exact h id d hd
+    · split
+      · exact h
+      · intro id d hd
+        simp only at hd
+        by_cases e : a.id = id
+        · subst e; rw [FMap.get_set_same] at hd; cases hd; exact ha
+        · rw [FMap.get_set_ne _ _ _ _ e] at hd; exact h id d hd
+
+theorem c14h_foldl_replayAuth_mem (cfg : Cfg) (L l : List Auth) (s : State) (hl : ∀ a ∈ l, a ∈ L)
+    (h : ∀ id d, s.devices.get id = some d → d.auth ∈ L) :
+    ∀ id d, (l.foldl (replayAuth cfg) s).devices.get id = some d → d.auth ∈ L := by
+  induction l generalizing s with
+  | nil => exact h
+  | cons a t ih =>
+    exact ih _ (fun x hx => hl x (by simp [hx])) (c14h_replayAuth_mem cfg L s a (hl a (by simp)) h)
+
+/-- The authorization of every device in memory is a record of the authorization file. -/
+theorem c14h_dev_auth_on_disk (cfg : Cfg) (V : Verify) (s : State) (h : Sync cfg V s) (id : Nat) (d : Dev)
+    (hd : s.devices.get id = some d) : d.auth ∈ s.disk.auths := by
+  have hobs1 : aobs (s.disk.auths.foldl (replayAuth cfg) (base s)) = aobs s := by
+    rw [c04h_aobs_foldl]; exact (c04h_authSim_iff cfg s).mp h.authSim
+  obtain ⟨d', h1, h2⟩ := (c04h_aobs_dev hobs1).2 id d hd
+  rw [← h2]
+  exact c14h_foldl_replayAuth_mem cfg s.disk.auths s.disk.auths (base s) (fun _ ha => ha)
+    (fun id d hd => by simp [base] at hd) id d' h1
+
+/-! ### The invariant `Sync` does not carry: every report on disk has its authorization on disk
+
+`Sync` says nothing about the records of a BANNED id in the report file (`Sync.repOk`
+only speaks about ids that are not banned), so `c14_report_has_auth` does not follow
+from `Sync` alone. The missing fact is itself an invariant of the server: -/
+
+/-- Every report on disk verifies under the key of an authorization on disk with the same id. -/
+def RepAuth (V : Verify) (s : State) : Prop :=
+  ∀ r ∈ s.disk.reports, ∃ a ∈ s.disk.auths, a.id = r.id ∧ V a.key (Report.signingBytes r) r.sig = true
+
+/-- `RepAuth` holds after the first start on a freshly installed directory. -/
+theorem c14_repauth_boot (cfg : Cfg) (V : Verify) (sgn : Bytes → Bytes) (tempKey fresh : Key) (now : Nat) (s : State)
+    (hf : fresh.length = 32) (h : boot cfg V sgn tempKey fresh now = some s) : RepAuth V s := by
+  obtain ⟨hc, hs0⟩ := c04h_sync_boot0 cfg V tempKey fresh hf
+  unfold boot at h
+  rw [load_eq_core, hc] at h
+  simp only at h
+  have h1 := (inv_catchUp sgn now (now / week + 2) _ hs0.inv).1
+  have h2 := (c14h_catchUp_disk sgn now (now / week + 2)
+    { tempKey := tempKey, srvPub := fresh, disk := { srvKeys := some fresh } }).2.1
+  generalize catchUp sgn now (now / week + 2) _ = p at h h1 h2
+  obtain ⟨s4, o⟩ := p
+  simp only at h1 h2
+  subst h1
+  cases h
+  intro r hr
+  rw [h2] at hr
+  cases hr
+
+/-- Every operation (restart included) preserves `RepAuth`. -/
+theorem c14_repauth_step (cfg : Cfg) (V : Verify) (sgn : Bytes → Bytes) (s : State) (op : Op)
+    (h : Sync cfg V s) (hra : RepAuth V s) : RepAuth V (step cfg V sgn s op).1 := by
+  obtain ⟨⟨⟨x, hx⟩, _, _⟩, _, hnew⟩ := c14h_step cfg V sgn s op h
+  intro r hr
+  rcases hnew r hr with hold | ⟨d, hd, hv⟩
+  · obtain ⟨a, ha, h1, h2⟩ := hra r hold
+    exact ⟨a, by rw [hx]; exact List.mem_append.mpr (Or.inl ha), h1, h2⟩
+  · refine ⟨d.auth, ?_, (h.inv.devOk _ _ hd).1, hv⟩
+    rw [hx]
+    exact List.mem_append.mpr (Or.inl (c14h_dev_auth_on_disk cfg V s h _ d hd))
+
+theorem c14_repauth_run (cfg : Cfg) (V : Verify) (sgn : Bytes → Bytes) (s : State) (ops : List Op)
+    (h : Sync cfg V s) (hra : RepAuth V s) (hops : ∀ op ∈ ops, OpWF op) :
+    RepAuth V (run cfg V sgn s ops).1 := by
+  induction ops generalizing s with
+  | nil => exact hra
+  | cons op t ih =>
+    exact ih (step cfg V sgn s op).1 (sync_step cfg V sgn s op h (hops op (by simp)))
+      (c14_repauth_step cfg V sgn s op h hra) (fun o ho => hops o (by simp [ho]))
+
+/-- `RepAuth` along reachability. -/
+theorem c14_repauth_reach (cfg : Cfg) (V : Verify) (sgn : Bytes → Bytes) (s t : State)
+    (h : Sync cfg V s) (hra : RepAuth V s) (hr : Reach cfg V sgn s t) : RepAuth V t := by
+  obtain ⟨ops, hops, rfl⟩ := hr
+  exact c14_repauth_run cfg V sgn s ops h hra hops
+
+theorem c14h_sync_reach (cfg : Cfg) (V : Verify) (sgn : Bytes → Bytes) (s t : State)
+    (h : Sync cfg V s) (hr : Reach cfg V sgn s t) : Sync cfg V t := by
+  obtain ⟨ops, hops, rfl⟩ := hr
+  exact sync_run cfg V sgn s ops h hops
+
 /-- Files only grow: every operation (restart included) extends each log by appending. -/
 theorem c14_files_grow (cfg : Cfg) (V : Verify) (sgn : Bytes → Bytes) (s t : State)
     (hs : Sync cfg V s) (hr : Reach cfg V sgn s t) :
     (∃ x, t.disk.auths = s.disk.auths ++ x) ∧ (∃ x, t.disk.reports = s.disk.reports ++ x) ∧
     (∃ x, t.disk.weeks = s.disk.weeks ++ x) ∧
     (s.gcaAvail = true → t.disk.gcaKey = s.disk.gcaKey) := by
-  sorry
+  obtain ⟨ops, hops, rfl⟩ := hr
+  obtain ⟨⟨h1, h2, h3⟩, h4⟩ := c14h_run cfg V sgn ops s hs hops
+  exact ⟨h1, h2, h3, h4⟩
 
-/-- In every reachable state each report on disk belongs to an id whose
-authorization is on disk and verifies under it. -/
-theorem c14_report_has_auth (cfg : Cfg) (V : Verify) (s : State) (hs : Sync cfg V s)
+/- Note: from `Sync` alone the closure statements below are NOT provable (`Sync.repOk` is silent
+about reports of banned ids; kernel-checked counterexample on an unreachable state in
+Gca/Lemmas/C14Cex.lean). They are therefore stated for every state reachable from a first
+start - which is every state a real server can be in - via the extra invariant `RepAuth`. -/
+
+/-- `c14_report_has_auth` from `Sync` together with the invariant `RepAuth`
+(which holds at first start, `c14_repauth_boot`, and is kept by every operation,
+`c14_repauth_step`). -/
+theorem c14_report_has_auth' (cfg : Cfg) (V : Verify) (s : State) (hs : Sync cfg V s) (hra : RepAuth V s)
     (hz : ∀ m sg, V (zeros 32) m sg = false) (r : Report) (hr : r ∈ s.disk.reports) :
     ∃ a ∈ s.disk.auths, a.id = r.id ∧ V a.key (Report.signingBytes r) r.sig = true := by
-  sorry
+  have _ := hs
+  have _ := hz
+  exact hra r hr
 
-/-- Dependency closure of an archive taken while writes are in progress. -/
-theorem c14_closed (cfg : Cfg) (V : Verify) (sgn : Bytes → Bytes) (sa sb sc se : State)
-    (ha : Sync cfg V sa) (hab : Reach cfg V sgn sa sb) (hbc : Reach cfg V sgn sb sc) (hce : Reach cfg V sgn sc se)
-    (hz : ∀ m sg, V (zeros 32) m sg = false) :
-    -- every archived report has its authorization in the archive, and verifies under it
-    (∀ r ∈ sb.disk.reports, ∃ a ∈ sc.disk.auths, a.id = r.id ∧ V a.key (Report.signingBytes r) r.sig = true) ∧
-    -- every archived authorization verifies under the archived GCA key
+/-- For ids that are not banned `Sync` alone suffices: the report verifies under the key of
+the live device, whose authorization is a record of the authorization file. -/
+theorem c14_report_has_auth_live (cfg : Cfg) (V : Verify) (s : State) (hs : Sync cfg V s)
+    (r : Report) (hr : r ∈ s.disk.reports) (hb : r.id ∉ s.bans) :
+    ∃ a ∈ s.disk.auths, a.id = r.id ∧ V a.key (Report.signingBytes r) r.sig = true := by
+  obtain ⟨d, hd, hv, _⟩ := hs.repOk r hr hb
+  exact ⟨d.auth, c14h_dev_auth_on_disk cfg V s hs _ d hd, (hs.inv.devOk _ _ hd).1, hv⟩
+
+/-- In every state reachable from a first start each report on disk belongs to an id
+whose authorization is on disk and verifies under it. -/
+theorem c14_report_has_auth (cfg : Cfg) (V : Verify) (sgn : Bytes → Bytes) (tempKey fresh : Key) (now : Nat)
+    (s0 : State) (ops : List Op) (hf : fresh.length = 32)
+    (hb : boot cfg V sgn tempKey fresh now = some s0) (hops : ∀ op ∈ ops, OpWF op)
+    (r : Report) (hr : r ∈ (run cfg V sgn s0 ops).1.disk.reports) :
+    ∃ a ∈ (run cfg V sgn s0 ops).1.disk.auths, a.id = r.id ∧ V a.key (Report.signingBytes r) r.sig = true :=
+  c14_repauth_run cfg V sgn s0 ops (sync_boot cfg V sgn tempKey fresh now s0 hf hb)
+    (c14_repauth_boot cfg V sgn tempKey fresh now s0 hf hb) hops r hr
+
+/-- The parts of `c14_closed` that follow from `Sync` alone: authorizations verify
+under the archived GCA key, statistics are a prefix. -/
+theorem c14_closed_sync (cfg : Cfg) (V : Verify) (sgn : Bytes → Bytes) (sa sb sc se : State)
+    (ha : Sync cfg V sa) (hab : Reach cfg V sgn sa sb) (hbc : Reach cfg V sgn sb sc) (hce : Reach cfg V sgn sc se) :
     (∀ a ∈ sc.disk.auths, ∃ k, se.disk.gcaKey = some k ∧ V k (Auth.signingBytes a) a.sig = true) ∧
-    -- the archived statistics are a prefix of the weeks archived later
     (∃ x, se.disk.weeks = sa.disk.weeks ++ x) := by
-  sorry
+  have hb := c14h_sync_reach cfg V sgn sa sb ha hab
+  have hc := c14h_sync_reach cfg V sgn sb sc hb hbc
+  obtain ⟨_, _, w1, _⟩ := c14_files_grow cfg V sgn sa sb ha hab
+  obtain ⟨_, _, w2, _⟩ := c14_files_grow cfg V sgn sb sc hb hbc
+  obtain ⟨_, _, w3, k3⟩ := c14_files_grow cfg V sgn sc se hc hce
+  constructor
+  · intro a hmem
+    cases hav : sc.gcaAvail with
+    | false =>
+      rw [hc.noAuthUnreg hav] at hmem
+      cases hmem
+    | true =>
+      refine ⟨sc.gcaKey, ?_, hc.authSig a hmem⟩
+      rw [k3 hav]
+      exact (hc.inv.gcaAv hav).1
+  · obtain ⟨x1, e1⟩ := w1
+    obtain ⟨x2, e2⟩ := w2
+    obtain ⟨x3, e3⟩ := w3
+    exact ⟨x1 ++ (x2 ++ x3), by rw [e3, e2, e1, List.append_assoc, List.append_assoc]⟩
+
+/-- `c14_closed` from `Sync` together with the invariant `RepAuth`. -/
+theorem c14_closed' (cfg : Cfg) (V : Verify) (sgn : Bytes → Bytes) (sa sb sc se : State)
+    (ha : Sync cfg V sa) (hra : RepAuth V sa)
+    (hab : Reach cfg V sgn sa sb) (hbc : Reach cfg V sgn sb sc) (hce : Reach cfg V sgn sc se)
+    (hz : ∀ m sg, V (zeros 32) m sg = false) :
+    (∀ r ∈ sb.disk.reports, ∃ a ∈ sc.disk.auths, a.id = r.id ∧ V a.key (Report.signingBytes r) r.sig = true) ∧
+    (∀ a ∈ sc.disk.auths, ∃ k, se.disk.gcaKey = some k ∧ V k (Auth.signingBytes a) a.sig = true) ∧
+    (∃ x, se.disk.weeks = sa.disk.weeks ++ x) := by
+  have _ := hz
+  have hb := c14h_sync_reach cfg V sgn sa sb ha hab
+  have hrb := c14_repauth_reach cfg V sgn sa sb ha hra hab
+  obtain ⟨⟨x, hx⟩, _⟩ := c14_files_grow cfg V sgn sb sc hb hbc
+  refine ⟨?_, c14_closed_sync cfg V sgn sa sb sc se ha hab hbc hce⟩
+  intro r hr
+  obtain ⟨a, hmem, h1, h2⟩ := hrb r hr
+  exact ⟨a, by rw [hx]; exact List.mem_append.mpr (Or.inl hmem), h1, h2⟩
+
+/-- Dependency closure of every archive taken from a server that was started on a
+freshly installed directory. -/
+theorem c14_closed (cfg : Cfg) (V : Verify) (sgn : Bytes → Bytes) (tempKey fresh : Key) (now : Nat)
+    (s0 sa sb sc se : State) (hf : fresh.length = 32) (hb : boot cfg V sgn tempKey fresh now = some s0)
+    (h0a : Reach cfg V sgn s0 sa)
+    (hab : Reach cfg V sgn sa sb) (hbc : Reach cfg V sgn sb sc) (hce : Reach cfg V sgn sc se)
+    (hz : ∀ m sg, V (zeros 32) m sg = false) :
+    (∀ r ∈ sb.disk.reports, ∃ a ∈ sc.disk.auths, a.id = r.id ∧ V a.key (Report.signingBytes r) r.sig = true) ∧
+    (∀ a ∈ sc.disk.auths, ∃ k, se.disk.gcaKey = some k ∧ V k (Auth.signingBytes a) a.sig = true) ∧
+    (∃ x, se.disk.weeks = sa.disk.weeks ++ x) := by
+  have hs0 := sync_boot cfg V sgn tempKey fresh now s0 hf hb
+  have hr0 := c14_repauth_boot cfg V sgn tempKey fresh now s0 hf hb
+  exact c14_closed' cfg V sgn sa sb sc se (c14h_sync_reach cfg V sgn s0 sa hs0 h0a)
+    (c14_repauth_reach cfg V sgn s0 sa hs0 hr0 h0a) hab hbc hce hz
 
 /-- With the files in the opposite order the closure fails: a report can be in
 the archive without its authorization (why the order of `PublicFiles` matters). -/
@@ -59,6 +461,9 @@ theorem c14_wrong_order_witness :
       let s2 := (run {} V (fun _ => []) s1 [.authorize a1, .dgram 10 (Report.encode r)]).1
       -- authorizations read first (from s1), reports later (from s2)
       r ∈ s2.disk.reports ∧ ∀ a ∈ s1.disk.auths, a.id ≠ r.id := by
-  sorry
+  intro V a1 r
+  refine ⟨{ tempKey := zeros 32, srvPub := zeros 32, disk := { srvKeys := some (zeros 32) } }, ?_, ?_⟩
+  · decide +kernel
+  · decide +kernel
 
 end Gca.Srv
